@@ -65,13 +65,18 @@ theorem rule_callbacks_are_callbacks :
 /-- the callbacks of the code's rule `r` -/
 def callbacksOf (r : RuleId) : List String := (alGet Gen.ruleCallbacks r).getD []
 
+/-- the three graph-walking variable rules at an event that contributes nothing to their scope -/
+macro "coll_idle" : tactic => `(tactic|
+  (simp only [ruleOf, noUnusedVariables, noUndefinedVariables, variablesInAllowedPosition, collRule, Coll.on, argVars, varUsage]
+   split <;> simp [Coll.addItems]))
+
 /-- **At an event that is none of the callbacks the code's rule overrides, the model of the rule
     does nothing** — it keeps its state and reports no error. -/
 theorem rule_ignores_other_events (s : Schema) (d : Document) (r : RuleId) (σ : (ruleOf r).σ) (e : Ev × Snap)
     (h : evCallback e.1 ∉ callbacksOf r) : (ruleOf r).on s d σ e = (σ, []) := by
   obtain ⟨ev, sn⟩ := e
   cases r <;> cases ev with
-    | enter n => cases n <;> first | rfl | (exfalso; revert h; simp only [evCallback, nodeCallbacks]; decide)
-    | leave n => cases n <;> first | rfl | (exfalso; revert h; simp only [evCallback, nodeCallbacks]; decide)
+    | enter n => cases n <;> first | rfl | (exfalso; revert h; simp only [evCallback, nodeCallbacks]; decide) | coll_idle
+    | leave n => cases n <;> first | rfl | (exfalso; revert h; simp only [evCallback, nodeCallbacks]; decide) | coll_idle
 
 end Gql.Tie
